@@ -1106,6 +1106,27 @@ val build_loop :
 
 val build : env -> bool -> (z list -> path) -> z list -> entry list -> outcome
 
+val server_hello : z list
+
+val utf8_encode_char : z -> z list
+
+val utf8_encode : z list -> z list
+
+val cont : z -> bool
+
+val utf8_decode_char : z list -> (z * z list) option
+
+val utf8_decode_fuel : nat -> z list -> z list option
+
+val utf8_decode : z list -> z list option
+
+type meth =
+| GET
+| POST
+| OtherMethod
+
+val handle : meth -> bool -> z list -> z * z list
+
 val join : z list -> z list list -> z list
 
 val commas : z list list -> z list
@@ -1178,3 +1199,5 @@ val op_cli : cli_case -> ((z * bool) * z list) * (z list * z list) list
 val op_build :
   cli_case -> bool -> z list -> z list -> entry list -> ((z * bool) * z
   list) * (z list * z list) list
+
+val op_http : z -> bool -> z list -> z * z list
